@@ -185,6 +185,9 @@ def gen_mra_case(rng):
     ms, mh = rng.randint(1, 3), rng.randint(1, 3)
     srows = rand_rows(rng, ms, n, poly)
     hrows = rand_rows(rng, mh, n, poly)
+    if rng.random() < 0.25:
+        # h constant: the trivial modulator of every ell = 0 relaxation
+        mh, hrows = 1, [[F(0)] * n]
     hc = [frac_str(F(rng.choice([-3, -1, 1, 2, 5]))) for _ in range(mh)]
     if rng.random() < 0.15 and mh >= 2:
         hc[0] = '0'
